@@ -46,4 +46,5 @@ def main(tier):
     chk.run("R-BOUNDARY", RG.boundary, r, only_wider=True, floor=130)
     chk.run("R-TEXTSIG", B.textsig, r, cx.templates, floor=2)
     chk.run("R-TEXTPAIR", B.textpair, cx.repo, cx.templates, cx.cpp, floor=4)
+    chk.run("R-SWITCHFIT", B.switchfit, cx.repo, floor=1)
     return chk.finish()
